@@ -157,6 +157,7 @@ func runC09(p *core.Program, r *core.Report) {
 		h.checkSentinel()
 		h.checkReadOnly()
 		h.checkClear()
+		h.checkNoBlindReject()
 	}
 }
 
